@@ -338,6 +338,22 @@ def scalar_models(ctx, kinds=("uint", "clen", "callid", "cseq"), inv=("ResumeEqF
                       "MaxAtoms = 99", "Cfgs <- Cfgs03", "Junk = 34", "EmitOn = TRUE"], list(inv) + ["Emit", "EmitTwo", "EmitByte"])
         ctx.tlc("MC_Scalar", ("MC_Scalar_%s_run.cfg" % k, cfg), workers=8)
 
+def live_models(ctx, runs):
+    """FairSpec / Progress (and MonotoneCont, ResumeEqFresh) on small Stream instances without the VIEW: model only,
+    a failure is a defect of the protocol model or a transcription, reported as machinery (exit 2), never a verdict."""
+    import re
+    for mod, cfg, maxlen in runs:
+        c = cfg
+        if maxlen is not None:
+            txt = open(os.path.join(V, "spec", cfg)).read()
+            c = (cfg.replace(".cfg", "_n%d.cfg" % maxlen), re.sub(r"MaxLen = \d+", "MaxLen = %d" % maxlen, txt))
+        r = vlib.run_tlc(mod, c, workers=8, timeout=1800)
+        if not r["ok"]: raise Machinery("TLC failed on %s (liveness of the protocol model):\n%s" % (cfg, r["tail"]))
+        ctx.states += r["distinct"]; ctx.transitions += r["generated"]
+        ctx.tlc_runs.append(dict(module=mod, cfg="%s%s (FairSpec, PROPERTIES Progress MonotoneCont; model only)" % (cfg, "" if maxlen is None else " MaxLen=%d" % maxlen),
+                                 states=r["distinct"], records=0, tlc_wall_s=round(r["wall"], 1)))
+        shutil.rmtree(r["dir"], ignore_errors=True)
+
 # ------------------------------------------------------------------------------------------------
 def plan_C02(ctx):
     ctx.extra["rule"] = ("TLC: every Send/Call interleaving of Stream per parser kind over all atom strings <= MaxLen "
@@ -348,12 +364,12 @@ def plan_C02(ctx):
                          "schedules by induction).  non-trivial = input with >= 1 suspension and a definitive verdict.")
     scalar_models(ctx)
     # liveness on small instances (beyond the listed properties): Stream!Progress under weak fairness of Call -- model only
-    for k in ("uint", "clen", "callid", "cseq"):
-        r = vlib.run_tlc("MC_Scalar", "MC_Scalar_live_%s.cfg" % k, workers=4, timeout=900)
-        if not r["ok"]: raise Machinery("TLC failed on MC_Scalar_live_%s (liveness of the protocol model):\n%s" % (k, r["tail"]))
-        ctx.states += r["distinct"]; ctx.transitions += r["generated"]
-        ctx.tlc_runs.append(dict(module="MC_Scalar", cfg="MC_Scalar_live_%s.cfg (FairSpec, PROPERTIES Progress MonotoneCont; model only)" % k, states=r["distinct"], records=0, tlc_wall_s=round(r["wall"], 1)))
-        shutil.rmtree(r["dir"], ignore_errors=True)
+    live_models(ctx, [("MC_Scalar", "MC_Scalar_live_%s.cfg" % k, None) for k in ("uint", "clen", "callid", "cseq")])
+    # ... and for the list parsers (token / URI parameter / URI header lists, SkipQuoted, Contact and PAI value lists)
+    n = 4 if ctx.quick else 5
+    live_models(ctx, [("MC_TokParam", "MC_TokParam_live_%s.cfg" % k, n) for k in ("tok", "up", "uh")] +
+                     [("MC_TokParam", "MC_TokParam_live_sq.cfg", None), ("MC_NameAddr", "MC_NameAddr_live_contacts.cfg", None),
+                      ("MC_NameAddr", "MC_NameAddr_live_pais.cfg", None), ("MC_FLine", "MC_FLine_live_bad.cfg", None)])
     msg_models(ctx, ["hdr", "hdrv", "hdrna"])
     sub_models(ctx, 4)
     sub_traces(ctx, 700 if ctx.quick else 4000)
@@ -807,16 +823,19 @@ def plan_C18(ctx):
     ctx.states += r2["distinct"]; ctx.transitions += r2["generated"]
     ctx.tlc_runs.append(dict(module="MC_URIAdj", cfg="MC_URIAdj_wrap32.cfg (model only, OffsMod=32)", states=r2["distinct"], records=0, drift=0, tlc_wall_s=round(r2["wall"], 1)))
     shutil.rmtree(r2["dir"], ignore_errors=True)
-    # views of every accepted URI (ParseURI records carry Short/Long/Flat/Trunc)
-    r3 = vlib.run_tlc("MC_URI", "MC_URI_schemes.cfg", workers=8, timeout=1500)
-    if not r3["ok"]: raise Machinery("TLC failed on MC_URI_schemes:\n%s" % r3["tail"])
-    ctx.states += r3["distinct"]; ctx.transitions += r3["generated"]
-    d3 = os.path.join(r3["dir"], "drift.ndjson")
-    rp3 = vlib.replay(r3["out"], drift_out=d3)
-    ctx.records += rp3["extra"]["records"]; ctx.impl_traces += rp3["extra"]["records"]; ctx.drift += rp3["extra"]["drift"]
-    if rp3["extra"]["drift"]: ctx.judge("Judge_URI", d3)
-    audit_sample(ctx, r3["out"], 211 if ctx.quick else 41)
-    shutil.rmtree(r3["dir"], ignore_errors=True)
+    # views of every accepted URI (ParseURI records carry Short/Long/Flat/Trunc); deepuser: ';' '?' ':' inside the user
+    # part before a later '@' (the back-tracking arms of ParseURI: a stale Params / Headers / Port breaks the views)
+    for vcfg in ("MC_URI_schemes.cfg", "MC_URI_deepuser.cfg"):
+        r3 = vlib.run_tlc("MC_URI", vcfg, workers=8, timeout=1500)
+        if not r3["ok"]: raise Machinery("TLC failed on %s:\n%s" % (vcfg, r3["tail"]))
+        ctx.states += r3["distinct"]; ctx.transitions += r3["generated"]
+        d3 = os.path.join(r3["dir"], "drift.ndjson")
+        rp3 = vlib.replay(r3["out"], drift_out=d3)
+        ctx.records += rp3["extra"]["records"]; ctx.impl_traces += rp3["extra"]["records"]; ctx.drift += rp3["extra"]["drift"]
+        ctx.tlc_runs.append(dict(module="MC_URI", cfg=vcfg + " (views)", states=r3["distinct"], records=rp3["extra"]["records"], drift=rp3["extra"]["drift"], tlc_wall_s=round(r3["wall"], 1)))
+        if rp3["extra"]["drift"]: ctx.judge("Judge_URI", d3)
+        audit_sample(ctx, r3["out"], 211 if ctx.quick else 41)
+        shutil.rmtree(r3["dir"], ignore_errors=True)
     witnesses(ctx, [dict(fn="ParseURI", args=dict(s=B(t))) for t in ("tel:a:b@c", "tel:+1:x@h;p", "TEL:a:b@c?h=1")])
     for s_ in (rp.get("samples") or [])[:3]:
         if len(ctx.samples) < 12: ctx.samples.append(dict(source="TLC MC_URIAdj replayed on the code", case=s_))
